@@ -627,6 +627,34 @@ class Model(object):
       m = max(m, self.max_submag(sub, rr, aa))
     return m
 
+  def min_subval(self, node, r, at=None):
+    """Smallest non-zero |value| of the node or any of its sub-nodes at r: double arithmetic flushes an intermediate
+    below ~1e-308 to zero, after which a huge co-factor can no longer bring the product back (the exact value may
+    be moderate).  Such points are outside what doubles can evaluate, as with overflow."""
+    r = F(r)
+    at = r if at is None else F(at)
+    try:
+      v = abs(self.value(node, r, at))
+    except (RefDomainError, ZeroDivisionError, ValueError, OverflowError):
+      v = mpf(0)
+    m = v if v != 0 else mpf("inf")
+    k = node["k"]
+    subs = []
+    if k in ("sum", "product", "pow"):
+      subs = [(a, r, at) for a in node["a"]]
+    elif k == "trans":
+      x = F(node["x"])
+      subs = [(node["f"], r + x, at + x)]
+    elif k == "ranges":
+      i = select_range([(mm, s, None) for mm, s, _ in node["parts"]], at)
+      if i is not None:
+        subs = [(node["parts"][i][2], r, at)]
+    elif k == "spline":
+      subs = [(node["start"], r, at), (node["end"], r, at)]
+    for sub, rr, aa in subs:
+      m = min(m, self.min_subval(sub, rr, aa))
+    return m
+
   def deriv(self, node, r, n=1):
     """n-th derivative at r of the branch selected at r (one-sided at breakpoints)."""
     r = F(r)
